@@ -274,7 +274,12 @@ pub fn run_check(ctx: &Ctx, property: &str, level: &str, tier: &str, seed: u64, 
     let t0 = Instant::now();
     let root = verif_root();
     let known = KnownFindings::load(&root);
-    let total = plan.total();
+    let full_total = plan.total();
+    // VERIF_CASES=n: an evenly spaced sample of n case indices (used by the determinism self-test)
+    let sample: Option<Vec<usize>> = std::env::var("VERIF_CASES").ok().and_then(|s| s.parse::<usize>().ok()).filter(|n| *n > 0 && *n < full_total).map(|n| {
+        (0..n).map(|k| k * full_total / n).collect()
+    });
+    let total = sample.as_ref().map(|s| s.len()).unwrap_or(full_total);
     let next = AtomicUsize::new(0);
     let slots: Mutex<Vec<Slot>> = Mutex::new(Vec::with_capacity(total));
     let harness_err: Mutex<Option<String>> = Mutex::new(None);
@@ -290,16 +295,18 @@ pub fn run_check(ctx: &Ctx, property: &str, level: &str, tier: &str, seed: u64, 
             let harness_err = &harness_err;
             let abort = &abort;
             let reexec = &reexec;
+            let sample = &sample;
             s.spawn(move || {
                 let dir = ctx.worker_dir(k);
                 loop {
                     if abort.load(Ordering::Relaxed) {
                         break;
                     }
-                    let idx = next.fetch_add(1, Ordering::Relaxed);
-                    if idx >= total {
+                    let pos = next.fetch_add(1, Ordering::Relaxed);
+                    if pos >= total {
                         break;
                     }
+                    let idx = sample.as_ref().map(|s| s[pos]).unwrap_or(pos);
                     let case = plan.case(idx);
                     let t = Instant::now();
                     match run_case(ctx, &dir, &case) {
@@ -343,6 +350,13 @@ pub fn run_check(ctx: &Ctx, property: &str, level: &str, tier: &str, seed: u64, 
 
     let mut slots = slots.into_inner().unwrap();
     slots.sort_by_key(|s| s.idx);
+    if let Ok(path) = std::env::var("VERIF_DUMP_HASHES") {
+        let mut out = String::new();
+        for s in &slots {
+            out.push_str(&format!("{} {:016x}\n", s.idx, s.report.event_hash));
+        }
+        std::fs::write(path, out).expect("dump hashes");
+    }
 
     // ---- aggregate --------------------------------------------------------
     let mut faults: BTreeMap<String, (u64, u64, u64)> = BTreeMap::new(); // configured runs, fired runs, fired total
@@ -493,11 +507,11 @@ pub fn run_check(ctx: &Ctx, property: &str, level: &str, tier: &str, seed: u64, 
             "distinct_nontrivial": distinct,
             "rule": plan.rule(),
             "samples": samples,
-            "enumerated_cases": plan.enumerated(),
-            "seeded_cases": total - plan.enumerated(),
+            "enumerated_cases": slots.iter().filter(|s| s.idx < plan.enumerated()).count(),
+            "seeded_cases": slots.iter().filter(|s| s.idx >= plan.enumerated()).count(),
             "simulated_processes": procs,
             "runs_per_hour": per_hour(evaluations),
-            "seeds_per_hour": per_hour((total - plan.enumerated()) as u64),
+            "seeds_per_hour": per_hour(slots.iter().filter(|s| s.idx >= plan.enumerated()).count() as u64),
             "simulated_processes_per_hour": per_hour(procs),
             "simulated_time": "not applicable: the code under test has no clock, timer or deadline; coverage is in logical steps",
             "logical_steps": {"scheduler_decisions": sched_steps, "simulated_syscalls": syscalls},
@@ -521,7 +535,11 @@ pub fn run_check(ctx: &Ctx, property: &str, level: &str, tier: &str, seed: u64, 
     let ev_dir = root.join("evidence");
     std::fs::create_dir_all(&ev_dir).expect("create evidence dir");
     let ev_path = ev_dir.join(format!("{property}.json"));
-    std::fs::write(&ev_path, serde_json::to_vec_pretty(&evidence).unwrap()).expect("write evidence");
+    if sample.is_none() {
+        std::fs::write(&ev_path, serde_json::to_vec_pretty(&evidence).unwrap()).expect("write evidence");
+    } else {
+        println!("(sampled self-test run: evidence file not rewritten)");
+    }
 
     println!(
         "check {property}: {evaluations} cases, {procs} simulated processes, {distinct} distinct non-trivial, {} violations ({} known-finding hits), {:.1}s; evidence {}",
